@@ -83,7 +83,12 @@ def region_matches(got_cells, want_row, region_width):
     return None
 
 
-def rand_child(rng, depth=1):
+def rand_child(rng, depth=1, overdraw=False):
+    if overdraw and rng.random() < 0.1:
+        # a child that draws WIDER than the room it is given (a text that is neither wrapped nor cut): a frame that crops
+        # its child - Panel, Padding - stays an exact rectangle around what fits
+        return {"k": "text", "s": "".join(rng.choice("abcdefghij") for _ in range(rng.randint(30, 260))) + rng.choice(["", "\nshort", "\n\nz"]),
+                "justify": None, "overflow": "ignore", "no_wrap": True, "style": None}
     prof = {"kinds": ["text", "panel", "padding", "table", "rule", "align", "group", "bar"]}
     spec = SP.gen_spec(rng, depth=depth, profile=prof, inline_ok=False)
     return spec
@@ -103,7 +108,7 @@ def widths_for(rng, m, extra=()):
 # ---------------------------------------------------------------------------------------------- Panel
 def wl_panel(ctx, rng, case_no):
     from rich import box as rbox
-    child = rand_child(rng, rng.choice([0, 1, 2]))
+    child = rand_child(rng, rng.choice([0, 1, 2]), overdraw=True)
     spec = {"k": "panel", "child": child, "box": rng.choice(SP.BOX_NAMES),
             "title": rng.choice([None, None, "T", "a title", "漢字", "[b]x[/b] y", "long title " * 4]),
             "title_align": rng.choice(["left", "center", "right"]), "expand": rng.random() < 0.6,
@@ -214,7 +219,7 @@ def wl_panel(ctx, rng, case_no):
 
 # ---------------------------------------------------------------------------------------------- Padding
 def wl_padding(ctx, rng, case_no):
-    child = rand_child(rng, rng.choice([0, 1, 2]))
+    child = rand_child(rng, rng.choice([0, 1, 2]), overdraw=True)
     spec = {"k": "padding", "child": child, "pad": SP.rand_pad(rng, small=False), "expand": rng.random() < 0.6,
             "style": rng.choice(["none", "none", "on blue", "bold red"])}
     pt, pr, pb, pl = SP.unpack_pad(spec["pad"])
